@@ -125,3 +125,60 @@ __CPROVER_requires(__CPROVER_is_fresh(self, sizeof(*self)) && g_front_pushed == 
 __CPROVER_assigns(g_front_pushed)
 __CPROVER_ensures(g_front_pushed == ((!g_state_is_composite && g_state_has_completion) ? 1 : 0))            /*@ob C10.completion-occurrence-queued-at-the-front-once-per-entry */
 ;
+
+/* ---- on_explicit_entry<TargetStates>(event, fsm) / on_pseudo_entry (C09) ----
+   TargetStates is a list of g_nt explicit-entry states; target i lives in region g_zone[i] (State::zone_index) and has id
+   g_tid[i] (get_state_id<State>()); regions of distinct targets are distinct [A: fork targets name distinct regions]. */
+extern const int g_nt;  extern const uint8_t g_zone[NR_CAP]; extern const uint16_t g_tid[NR_CAP]; extern const int g_w;   /* g_w: ghost target index */
+extern const uint16_t g_hist_ids[NR_CAP];      /* what m_history.on_entry(self, event) assigns (history_impl units) */
+extern int g_pe_calls;
+#define mp_size(L) g_nt
+#define ZD(j) ((j) >= g_nt || (j) == g_w || g_zone[j] != g_zone[g_w])
+#define ZONES_DISTINCT_FROM_W (ZD(0) && ZD(1) && ZD(2) && ZD(3) && ZD(4) && ZD(5) && ZD(6) && ZD(7))
+#define NZ(j) ((j) >= g_nt || g_zone[j] != g_k)
+#define NO_TARGET_IN_K (NZ(0) && NZ(1) && NZ(2) && NZ(3) && NZ(4) && NZ(5) && NZ(6) && NZ(7))
+#define TARGETS_OK (1 <= g_nt && g_nt <= nr_regions && 0 <= g_w && g_w < g_nt && g_zone[0] < nr_regions && g_zone[1] < nr_regions && g_zone[2] < nr_regions && g_zone[3] < nr_regions \
+                    && g_zone[4] < nr_regions && g_zone[5] < nr_regions && g_zone[6] < nr_regions && g_zone[7] < nr_regions && ZONES_DISTINCT_FROM_W)
+void m_history_on_entry_ids(fsm_t* self, event_t event)
+__CPROVER_requires(g_seq == 1 && !g_exc && EV_EQ(event, g_evt))                  /*@ob C08.history-decided-by-the-users-entering-event */
+__CPROVER_requires(g_nt != nr_regions)                                           /*@ob C09.history-consulted-only-when-some-region-is-not-targeted */
+__CPROVER_assigns(__CPROVER_object_upto(self->m_active_state_ids, sizeof(self->m_active_state_ids)), g_hist_called)
+__CPROVER_ensures(self->m_active_state_ids[g_k] == g_hist_ids[g_k] && g_hist_called == 1)
+;
+extern int g_hist_called;
+void visitor_call_state(fsm_t* self, type_t State)          /* visitor(get_state<State>()) : state_entry_visitor::operator() */
+__CPROVER_requires(g_seq == 2 && !g_exc && self->m_event_processing)             /*@ob C04.entry-behaviours-run-with-the-busy-mark-set */
+__CPROVER_requires(0 <= g_entry_next && g_entry_next < g_nt && State == g_entry_next)   /*@ob C09.fork-targets-entered-in-listed-order-each-once */
+__CPROVER_assigns(g_entry_next, g_exc)
+__CPROVER_ensures(g_entry_next == __CPROVER_old(g_entry_next) + 1)
+;
+void visit_active_entry2(fsm_t* self)                       /* visit<active_non_recursive>(visitor) */
+__CPROVER_requires(g_seq == 2 && g_entry_next == 0 && !g_exc && self->m_event_processing)
+__CPROVER_assigns(g_entry_next, g_exc)
+__CPROVER_ensures(!g_exc ==> g_entry_next == nr_regions)
+;
+#define ALL_IDS_SET() (g_seq = 2)     /* ghost step */
+void on_explicit_entry(fsm_t* self, event_t event, fsm_t* fsm)
+__CPROVER_requires(REGIONS_OK && TARGETS_OK && __CPROVER_is_fresh(self, sizeof(*self)) && g_seq == 0 && g_entry_next == 0 && !g_exc && g_pool_runs == 0 && g_hist_called == 0 && EV_EQ(event, g_evt) && !self->m_event_processing)
+__CPROVER_assigns(self->m_running, self->m_event_processing, __CPROVER_object_upto(self->m_active_state_ids, sizeof(self->m_active_state_ids)), g_seq, g_entry_next, g_exc, g_raised_by_own_entry, g_pool_runs, g_hist_called)
+__CPROVER_ensures(!g_exc ==> self->m_active_state_ids[g_zone[g_w]] == g_tid[g_w])                                           /*@ob C09.every-named-target-becomes-active-in-its-region */
+__CPROVER_ensures((!g_exc && NO_TARGET_IN_K && g_nt != nr_regions) ==> (g_hist_called == 1 && self->m_active_state_ids[g_k] == g_hist_ids[g_k]))  /*@ob C08,C09.untargeted-regions-follow-the-history-policy */
+__CPROVER_ensures(!g_exc ==> g_entry_next == (g_nt == nr_regions ? g_nt : nr_regions))                                      /*@ob C09.every-region-entered-once */
+__CPROVER_ensures(!g_exc ==> (!self->m_event_processing && g_pool_runs == (g_has_event_pool ? 1 : 0)))
+;
+process_result process_event(fsm_t* self, event_t event)
+__CPROVER_requires(g_seq == 2 && g_pe_calls == 0 && !g_exc && !self->m_event_processing)   /*@ob C09.entry-point-event-processed-once-after-the-entry */
+__CPROVER_requires(EV_EQ(event, g_evt))                                                  /*@ob C09.entry-point-continues-with-the-original-event */
+__CPROVER_assigns(g_pe_calls, g_exc)
+__CPROVER_ensures(g_pe_calls == 1)
+;
+void on_explicit_entry_stub(fsm_t* self, event_t event, fsm_t* fsm)
+__CPROVER_requires(g_seq == 0 && !g_exc && EV_EQ(event, g_evt))
+__CPROVER_assigns(g_seq, g_exc, self->m_event_processing)
+__CPROVER_ensures(g_exc || (g_seq == 2 && !self->m_event_processing))
+;
+void on_pseudo_entry(fsm_t* self, event_t event, fsm_t* fsm)
+__CPROVER_requires(__CPROVER_is_fresh(self, sizeof(*self)) && g_seq == 0 && g_pe_calls == 0 && !g_exc && EV_EQ(event, g_evt))
+__CPROVER_assigns(g_seq, g_exc, g_pe_calls, self->m_event_processing)
+__CPROVER_ensures(!g_exc ==> g_pe_calls == 1)                                                                               /*@ob C09.entry-point-event-processed-once-after-the-entry */
+;
